@@ -214,7 +214,7 @@ func subProgErr() *Program {
 		pstep("w", O("v", E("$.input.v"))),
 	}, Outputs: []Output{
 		{"success", O("r", E(sv("w")))},
-		{"error", O("r", E("$.steps.w.outputs.error.v"))},
+		{"error", O("reason", E("$.steps.w.outputs.error.error"))},
 	}}
 }
 
@@ -516,6 +516,16 @@ func tagPrograms() []*Program {
 			{ID: "a", Input: O("v", E("$.input.n")), Enabled: E("$.input.flag")},
 			pstep("b", O("v", I(1)))},
 			Outputs: []Output{{"success", O("r", E(sv("b")), "w", Opt{true, sv("a")}, "d", OrDisabled{"$.steps.a.outputs.success"})}}},
+		{Name: "strictlenient", Steps: []Step{pstep("a", O("v", E("$.input.n"))), pstep("b", O("v", I(1)))},
+			Outputs: []Output{
+				{"strict", O("x", E(sv("a")), "y", E(sv("b")))},
+				{"lenient", O("x", Opt{true, sv("a")}, "y", Opt{true, sv("b")})},
+			}},
+		{Name: "strictlenient3", Steps: []Step{pstep("a", O("v", E("$.input.n"))), pstep("b", O("v", I(1))), pstep("c", O("v", E(sv("b"))))},
+			Outputs: []Output{
+				{"strict", O("x", E(sv("a")), "y", E(sv("b")), "z", E(sv("c")))},
+				{"lenient", O("x", Opt{true, sv("a")}, "z", OneOf{Disc: "k", Opts: []Field{{"ok", E("$.steps.c.outputs.success")}, {"bad", E("$.steps.c.outputs.error")}}})},
+			}},
 		{Name: "optinwaitfor", Steps: []Step{
 			pstep("a", O("v", E("$.input.n"))),
 			{ID: "c", Input: O("v", I(2)), WaitFor: O("x", Opt{true, "$.steps.a.outputs.success"})}},
@@ -529,4 +539,44 @@ func tagInputs(p *Program) []map[string]any {
 		return []map[string]any{{"n": 5, "flag": true}, {"n": 5, "flag": false}}
 	}
 	return []map[string]any{{"n": 5}}
+}
+
+// ---------------------------------------------------------------------------------------
+// programs whose expressions can fail at run time (C07)
+
+func evalFailPrograms() []*Program {
+	two := func(name string, bInput Node, extra func(p *Program)) *Program {
+		p := &Program{Name: name, Steps: []Step{pstep("a", O("v", E("$.input.n"))), {ID: "b", Input: bInput}},
+			Outputs: []Output{{"success", O("r", E(sv("a")), "q", E(sv("b")))}}}
+		if extra != nil {
+			extra(p)
+		}
+		return p
+	}
+	return []*Program{
+		two("evalconv", O("v", E("stringToInt($.input.s)")), nil),
+		two("evalindex", O("v", E("$.input.l[1]")), nil),
+		two("evaldiv", O("v", E("10 / $.input.n")), nil),
+		two("evalmod", O("v", E("10 % $.input.n")), nil),
+		two("evalenabled", O("v", I(1)), func(p *Program) { p.Steps[1].Enabled = E("stringToBool($.input.s)") }),
+		two("evalstop", O("v", I(1)), func(p *Program) { p.Steps[1].StopIf = E("stringToBool($.input.s)") }),
+		two("evaldeploy", O("v", I(1)), func(p *Program) {
+			p.Steps[1].Deploy = O("deployer_name", Str("scripted"), "tag", E("intToString(stringToInt($.input.s))"))
+		}),
+		two("evalfnoutput", O("v", I(1), "s", E("intToString($.steps.a.outputs.success.v)")), nil),
+		two("evaloutconv", O("v", I(1)), func(p *Program) {
+			p.Outputs = []Output{{"success", O("r", E("stringToInt($.steps.a.outputs.success.s)"))}, {"other", O("q", E(sv("b")), "e", E("$.steps.a.outputs.error.v"))}}
+		}),
+		two("evalfloat", O("v", E("floatToInt(stringToFloat($.input.s))")), nil),
+	}
+}
+
+func evalFailInputs() []map[string]any {
+	return []map[string]any{
+		{"n": 5, "s": "7", "l": []any{1, 2}},
+		{"n": 0, "s": "soon", "l": []any{1}},
+		{"n": 5},
+		{"n": -9223372036854775807, "s": "NaN", "l": []any{}},
+		{"n": 1, "s": "true", "l": []any{3, 4, 5}},
+	}
 }
